@@ -283,33 +283,42 @@ def extractRay (t : Tab) (n enter : Nat) : Vec :=
     | some i => -((t.rows.getD i []).getD enter 0)
     | none => 0
 
+/-- the tableau `solve_lp` starts from: rows `[A_i | e_i | b_i]`, objective row `[w | 0 | 0]`,
+slack basis -/
+def initTab (w : Vec) (A : Mat) (b : Vec) : Tab :=
+  ⟨(List.range b.length).map fun i => (A.getD i []) ++ unitV b.length i ++ [b.getD i 0],
+   w ++ zeros (b.length + 1), (List.range b.length).map (· + w.length)⟩
+
+/-- the slack columns of an objective row (dual vector / Farkas vector) -/
+def slackPart (n m : Nat) (o : List Rat) : Vec := (o.drop n).take m
+
+/-- `_extract` plus the certificate of a finished `_phase2` -/
+def finishLp (n m : Nat) (minimize : Bool) (iters0 : Nat) (ph1 near : Bool) (r : P2) : LpOut :=
+  let x := extractX r.tab n
+  let o := -(lastR r.tab.obj)
+  let o := if minimize then o else -o
+  let cert := match r.status, r.enter with
+    | .OPTIMAL, _ => slackPart n m r.tab.obj
+    | .UNBOUNDED, some e => extractRay r.tab n e
+    | _, _ => []
+  ⟨r.status, x, some o, iters0 + r.iters, cert, ph1, near⟩
+
 /-- `solve_lp(c, A, b, minimize=…, eps=…, max_iter=…)`; the reported objective is in the caller's
 sense (`-obj` when maximising), the certificate is for `minimise w·x`, `w = ±c`. -/
 def solveLp (c : Vec) (A : Mat) (b : Vec) (minimize : Bool) (eps : Rat) (maxIter : Nat) : LpOut :=
   let m := b.length
   let n := c.length
   let w := if minimize then c else c.map (fun v => -v)
-  let rows := (List.range m).map fun i => (A.getD i []) ++ unitV m i ++ [b.getD i 0]
-  let t0 : Tab := ⟨rows, w ++ zeros (m + 1), (List.range m).map (· + n)⟩
-  let slackPart (o : List Rat) : Vec := (o.drop n).take m
-  let fin (iters0 : Nat) (ph1 : Bool) (near : Bool) (r : P2) : LpOut :=
-    let x := extractX r.tab n
-    let o := -(lastR r.tab.obj)
-    let o := if minimize then o else -o
-    let cert := match r.status, r.enter with
-      | .OPTIMAL, _ => slackPart r.tab.obj
-      | .UNBOUNDED, some e => extractRay r.tab n e
-      | _, _ => []
-    ⟨r.status, x, some o, iters0 + r.iters, cert, ph1, near⟩
-  if (List.range m).any fun i => decide (lastR (rows.getD i []) < -eps) then
+  let t0 := initTab w A b
+  if (List.range m).any fun i => decide (lastR (t0.rows.getD i []) < -eps) then
     let p := phase1 eps maxIter n m t0
     if p.status = .MAX_ITER then
       ⟨.MAX_ITER, zeros n, none, p.iters, [], true, p.near⟩
     else if p.status != .OPTIMAL then
-      ⟨.INFEASIBLE, zeros n, none, p.iters, slackPart p.p1obj, true, p.near⟩
-    else fin p.iters true (p.near || phase2Near eps (maxIter - p.iters) p.tab)
+      ⟨.INFEASIBLE, zeros n, none, p.iters, slackPart n m p.p1obj, true, p.near⟩
+    else finishLp n m minimize p.iters true (p.near || phase2Near eps (maxIter - p.iters) p.tab)
       (phase2 eps (maxIter - p.iters) 0 p.tab)
-  else fin 0 false (phase2Near eps maxIter t0) (phase2 eps maxIter 0 t0)
+  else finishLp n m minimize 0 false (phase2Near eps maxIter t0) (phase2 eps maxIter 0 t0)
 
 /-- the LP that `solveLp`'s certificate is about -/
 def mkLP (c : Vec) (A : Mat) (b : Vec) (minimize : Bool) : LP :=
